@@ -30,6 +30,18 @@ type arithFn struct {
 	fuel bool   // the function calls itself: generated with an explicit fuel argument
 }
 
+// group: the generated module a function goes to (one module per source area, so that a
+// refusal in one area only stops the theorems that depend on that area)
+func (f arithFn) group() string {
+	switch {
+	case strings.HasPrefix(f.file, "seqio/origin"):
+		return "Origin"
+	case f.file == "modifier.go":
+		return "Modifier"
+	}
+	return ""
+}
+
 var arithFns = []arithFn{
 	{"utils.go", "", "Compare", "compare", false},
 	{"utils.go", "", "Min", "gmin", false},
@@ -39,7 +51,6 @@ var arithFns = []arithFn{
 	{"location.go", "", "rangeOverlap", "rangeOverlap", false},
 	{"seqio/origin.go", "", "toOriginLength", "toOriginLength", false},
 	{"seqio/origin.go", "", "fromOriginLength", "fromOriginLength", false},
-	{"seqio/date.go", "", "isLeapYear", "isLeapYear", false},
 	{"location.go", "Between", "Expand", "betweenExpand", false},
 	{"location.go", "Between", "Reverse", "betweenReverse", false},
 	{"location.go", "Point", "Expand", "pointExpand", false},
@@ -733,7 +744,11 @@ func goType(x ast.Expr) string {
 	return ""
 }
 
-func genArith(repo string) (text string, err error) {
+func genArith(repo string) (string, error)         { return genArithGroup(repo, "") }
+func genArithOrigin(repo string) (string, error)   { return genArithGroup(repo, "Origin") }
+func genArithModifier(repo string) (string, error) { return genArithGroup(repo, "Modifier") }
+
+func genArithGroup(repo, group string) (text string, err error) {
 	defer func() {
 		if r := recover(); r != nil {
 			if rf, ok := r.(refusal); ok {
@@ -752,8 +767,17 @@ func genArith(repo string) (text string, err error) {
 	b := strings.Builder{}
 	b.WriteString("/-\n  GENERATED by go2lean (arith.go) from the Go sources — do not edit.\n")
 	b.WriteString("  Straight-line integer / location-constructor functions as pure Lean terms.\n-/\n")
-	b.WriteString("import Gts.Model.Loc\nnamespace Gts.Gen\nset_option linter.unusedVariables false\n\n")
+	switch group {
+	case "":
+		b.WriteString("import Gts.Model.Loc\n")
+	case "Modifier":
+		b.WriteString("import Gts.Gen.Arith\n")
+	}
+	b.WriteString("namespace Gts.Gen\nset_option linter.unusedVariables false\n\n")
 	for _, spec := range arithFns {
+		if spec.group() != group {
+			continue
+		}
 		af, ok := files[spec.file]
 		if !ok {
 			var perr error
